@@ -368,6 +368,8 @@ def compare_case(ui: UnitInfo, rule: str, inp: str, obs: dict, counters: dict):
             F.append(Finding("consumed", "exported rule consumed %d bytes, PEG semantics gives %d" % (root["end"], exp["end"]),
                              expected=exp["end"], observed=root["end"]))
         fn = exp["fn"]
+        side = None
+        on_demand = 0
         for inv in invs:
             if inv["ok"] is None or inv["rule"] in ui.lr_scc:
                 continue
@@ -377,9 +379,14 @@ def compare_case(ui: UnitInfo, rule: str, inp: str, obs: dict, counters: dict):
                 # evaluated by the implementation at a place the naive evaluation never reaches: judge on demand
                 if ui.has_lr or ui.has_userfn:
                     continue
+                on_demand += 1
+                if on_demand > 300:
+                    continue  # a broken parser on a long input can wander anywhere: a sample is enough
                 try:
-                    side = Model(ui.g, ui.types)
-                    side.parse(rule, inp)  # initialises input
+                    if side is None:
+                        side = Model(ui.g, ui.types)
+                        side.parse(rule, inp)  # initialises input (once per case)
+                    side.steps = 0
                     r2 = side.call(inv["rule"], inv["q"])
                     outs = {("ok", r2.end, False)} if r2 is not None else {("err", False)}
                     cnt("fn_on_demand")
